@@ -5,6 +5,7 @@ import (
 	"encoding/base64"
 	"fmt"
 	"path"
+	"reflect"
 	"strings"
 
 	"git.defalsify.org/vise.git/cache"
@@ -173,6 +174,7 @@ func C11() *vk.Check {
 
 func runC11(c *vk.Ctx) {
 	c11PersisterReuse(c)
+	c11PersisterLoads(c)
 	ctx := context.Background()
 	sids, keys := c11SidsQuick, c11KeysQuick
 	if !c.Quick() {
@@ -383,5 +385,137 @@ func c11PersisterReuse(c *vk.Ctx) {
 				b.Cleanup()
 			}
 		}
+	}
+}
+
+// c11PersisterLoads: one persist.Persister object that serves several sessions in turn (a worker-wide persister;
+// Persister.WithFlush exists for this) must hand every session exactly its own stored snapshot: Load over the
+// content of the session handled before equals Load through a new persister, and after a flushing Save nothing of
+// the saved session is left for a session that does not exist yet.
+func c11PersisterLoads(c *vk.Ctx) {
+	n := c.N(120, 4000)
+	for i := 0; i < n; i++ {
+		if !c.Mine(i) {
+			continue
+		}
+		key := fmt.Sprintf("persister-loads/%d", i)
+		if !c.Want(key) {
+			continue
+		}
+		r := c.RNG(key)
+		backend := []string{"mem", "fs", "fsbin", "pg"}[i%4]
+		b, err := app.NewBackend(backend)
+		if err != nil {
+			continue
+		}
+		c.Begin(key)
+		func() {
+			defer b.Cleanup()
+			flags := uint32(r.Range(0, 20))
+			capacity := uint32(0)
+			if r.Chance(1, 2) {
+				capacity = uint32(r.Range(200, 2000))
+			}
+			k := r.Range(2, 5)
+			type sess struct {
+				sid string
+				st  *app.StateSnap
+				ca  *app.CacheSnap
+			}
+			var all []sess
+			// every session is written through a persister of its own
+			for j := 0; j < k; j++ {
+				sid := fmt.Sprintf("user%02d", j)
+				st := state.NewState(flags)
+				ca := cache.NewCache()
+				if capacity > 0 {
+					ca = ca.WithCacheSize(capacity)
+				}
+				depth := r.Range(0, 5)
+				st.Down("root")
+				for d := 0; d < depth; d++ {
+					st.Down(fmt.Sprintf("n%d_%d", j, d))
+					ca.Push()
+					for x := 0; x < r.Range(0, 3); x++ {
+						ca.Add(fmt.Sprintf("sym%d_%d_%d", j, d, x), fmt.Sprintf("secret-%s-%d-%d", sid, d, x), uint16(r.Range(0, 60)))
+					}
+				}
+				// symbols every session has (same key, own value)
+				if r.Chance(2, 3) {
+					ca.Add("pin", "pin-of-"+sid, 40)
+				}
+				for p := 0; p < r.Range(0, 3); p++ {
+					st.Next()
+				}
+				for f := uint32(8); f < 8+flags; f++ {
+					if r.Chance(1, 3) {
+						st.SetFlag(f)
+					}
+				}
+				if r.Chance(1, 3) {
+					st.SetLanguage(vk.Pick(r, []string{"nor", "fra", "swa"}))
+				}
+				if r.Chance(1, 2) {
+					st.SetCode([]byte{0, 7, 0, byte(j)})
+				}
+				h, _ := b.Handle()
+				if err := persist.NewPersister(h).WithContent(st, ca).Save(sid); err != nil {
+					c.Inconclusive("cannot prepare session: " + err.Error())
+					return
+				}
+				all = append(all, sess{sid, app.SnapState(st), app.SnapCache(ca)})
+			}
+			flush := r.Chance(1, 2)
+			hs, _ := b.Handle()
+			shared := persist.NewPersister(hs).WithContent(state.NewState(flags), cache.NewCache())
+			if flush {
+				shared = shared.WithFlush()
+			}
+			mode := map[bool]string{true: "flush", false: "plain"}[flush]
+			for step := 0; step < 3*k; step++ {
+				s := all[r.Intn(len(all))]
+				c.EvalN(1, 1)
+				c.Count("shared_persister_loads:"+mode, 1)
+				csd := map[string]interface{}{"backend": backend, "mode": mode, "sessions": k, "step": step, "session": s.sid}
+				if err := shared.Load(s.sid); err != nil {
+					c.Violate(backend+":shared-persister:"+mode+":load-fails", fmt.Sprintf("%s: Load(%s) through the shared persister fails: %v", backend, s.sid, err), key, csd)
+					return
+				}
+				gs, gc := app.SnapState(shared.GetState()), app.SnapCache(shared.Memory)
+				if !gs.Equal(s.st) {
+					c.Violate(backend+":shared-persister:"+mode+":state-of-another-session", fmt.Sprintf("%s: a persister that handled other sessions before loads %s as %+v, stored %+v", backend, s.sid, gs, s.st), key, csd)
+					return
+				}
+				if !gc.Equal(s.ca) || !reflect.DeepEqual(gc.Sizes, s.ca.Sizes) {
+					c.Violate(backend+":shared-persister:"+mode+":cache-of-another-session", fmt.Sprintf("%s: a persister that handled other sessions before loads the cache of %s as %+v, stored %+v", backend, s.sid, gc, s.ca), key, csd)
+					return
+				}
+				if r.Chance(1, 2) {
+					if err := shared.Save(s.sid); err != nil {
+						c.Violate(backend+":shared-persister:"+mode+":save-fails", err.Error(), key, csd)
+						return
+					}
+					if flush {
+						// what a session that does not exist yet would start from
+						fs, fc := app.SnapState(shared.GetState()), app.SnapCache(shared.Memory)
+						es := app.SnapState(state.NewState(flags))
+						ecache := cache.NewCache()
+						if capacity > 0 {
+							ecache = ecache.WithCacheSize(capacity)
+						}
+						ec := app.SnapCache(ecache)
+						c.Count("flushing_saves", 1)
+						if !fs.Equal(es) {
+							c.Violate(backend+":shared-persister:flush-leaves-state", fmt.Sprintf("%s: after a flushing Save of %s the persister's state is %+v, a new state is %+v", backend, s.sid, fs, es), key, csd)
+							return
+						}
+						if !fc.Equal(ec) || len(fc.Sizes) != 0 {
+							c.Violate(backend+":shared-persister:flush-leaves-cache", fmt.Sprintf("%s: after a flushing Save of %s the persister's cache still holds %+v (a new cache: %+v)", backend, s.sid, fc, ec), key, csd)
+							return
+						}
+					}
+				}
+			}
+		}()
 	}
 }
